@@ -3,7 +3,7 @@ from harness import check, replay
 from checks.c02 import judge_events
 
 SEMIRINGS = ["addmul", "logaddexp", "maxadd", "minadd", "maxmul", "minmul", "orand"]
-LIMIT = {"quick": 1200, "thorough": 40000}
+LIMIT = {"quick": 1200, "thorough": 15000}
 
 
 def run(tier):
@@ -25,8 +25,7 @@ def run(tier):
     rs.run_lens("hom_logaddexp", cfg="hom_logaddexp" if tier == "quick" else "hom_logaddexp_deep", timeout=2400)
     out.add_replay(rs, "homogeneity")
     events = rp.events
-    jr, n_ok, n_bad, n_undef = judge_events(
-        out, events, "C08", lambda e: "%s|%s" % (e["what"], replay.term_sig(e["lhs"], 2)))
+    jr, n_ok, n_bad, n_undef = judge_events(out, events, "C08", lambda e: "%s|%s" % (e["what"], replay.term_sig(e["lhs"], 2)), timeout=300 if tier == "quick" else 2400)
     cov = check.replay_coverage(
         rp, "every sum-product expression of the semiring lenses (all subsets of reduced variables, operands with and "
             "without each variable): normalize / unfold / optimize results as terms judged by TLC against the naive "
